@@ -7,6 +7,21 @@ import (
 	"time"
 )
 
+// test directories are removed only when the test binary ends (see TestMain): databases of killed workers are never closed
+var testRoot string
+
+func testDir() string {
+	d, _ := os.MkdirTemp(testRoot, "case-")
+	return d
+}
+
+func TestMain(m *testing.M) {
+	testRoot, _ = os.MkdirTemp("/dev/shm", "clusterlib-")
+	code := m.Run()
+	os.RemoveAll(testRoot)
+	os.Exit(code)
+}
+
 func mkScript(splits, per, keys int) *Script {
 	var sp [][]Record
 	id := uint32(1)
@@ -52,8 +67,7 @@ func drained(gen int64) func(l *Log) bool {
 }
 
 func TestSmokeFullRestart(t *testing.T) {
-	dir, _ := os.MkdirTemp("/dev/shm", "clusterlib-")
-	defer os.RemoveAll(dir)
+	dir := testDir()
 	sc := mkScript(3, 10, 4)
 	t0 := time.Now()
 	c, err := New(Options{Dir: dir, Workers: 2, KeyGroups: 8, OpBatch: 3, SrBatch: 2, ReadBatch: 2, Script: sc})
